@@ -195,6 +195,7 @@ type runner struct {
 	failAt  int    // inject errInjected at this I/O call index of the current commit (-1 none)
 	failHit string // what was failed
 	ioCount int
+	ps      int
 	onIO    func(kind string, off int64, data []byte)
 }
 
@@ -302,6 +303,7 @@ func (r *runner) exec(line string) (cont bool) {
 			return true
 		}
 		r.db = db
+		r.ps = db.Info().PageSize
 		r.res("ok")
 		r.info("open")
 	case "close":
@@ -355,7 +357,13 @@ func (r *runner) exec(line string) (cont bool) {
 		} else {
 			r.res("notx")
 		}
-	case "commit":
+	case "commit", "commitfail":
+		r.failAt = -1
+		if f[0] == "commitfail" {
+			r.failAt, _ = strconv.Atoi(f[1])
+			r.failHit = ""
+			defer func() { r.failAt = -1 }()
+		}
 		if r.wtx == nil {
 			r.res("notx")
 			return true
@@ -367,7 +375,12 @@ func (r *runner) exec(line string) (cont bool) {
 		tx := r.wtx
 		r.wtx = nil
 		if len(r.rtx) == 0 {
-			r.res("%s", errName(tx.Commit()))
+			err := tx.Commit()
+			if f[0] == "commitfail" {
+				r.res("%s failed=%s ios=%d", errName(err), r.failHit, r.ioCount)
+			} else {
+				r.res("%s", errName(err))
+			}
 			r.info("commit")
 			return true
 		}
@@ -387,10 +400,14 @@ func (r *runner) exec(line string) (cont bool) {
 		for {
 			select {
 			case err := <-done:
+				extra := ""
+				if f[0] == "commitfail" {
+					extra = fmt.Sprintf(" failed=%s ios=%d", r.failHit, r.ioCount)
+				}
 				if len(closed) > 0 {
-					r.res("%s blocked-closed=%s", errName(err), strings.Join(closed, ","))
+					r.res("%s%s blocked-closed=%s", errName(err), extra, strings.Join(closed, ","))
 				} else {
-					r.res("%s", errName(err))
+					r.res("%s%s", errName(err), extra)
 				}
 				return true
 			case <-time.After(250 * time.Millisecond):
@@ -549,8 +566,8 @@ func (r *runner) image() {
 	// Only the pages below the larger of the two high-water marks are copied (the rest of a pre-grown file is
 	// never referenced); the real file length is reported separately.
 	ps := int64(r.opts.ps)
-	if r.db != nil {
-		ps = int64(r.db.Info().PageSize)
+	if r.ps != 0 {
+		ps = int64(r.ps)
 	}
 	want := flen
 	hdr := make([]byte, 2*ps)
@@ -716,7 +733,7 @@ func (r *runner) finish() {
 func runHistory(w *bufio.Writer, dir string, caseID int, header string, lines []string, imgMode string) {
 	fmt.Fprintf(w, "case %d %s\n", caseID, header)
 	r := newRunner(w, dir, caseID)
-	if strings.HasSuffix(imgMode, "+io") {
+	if strings.HasSuffix(imgMode, "+io") || imgMode == "+io" {
 		r.ioLog = true
 		imgMode = strings.TrimSuffix(imgMode, "+io")
 	}
@@ -726,7 +743,7 @@ func runHistory(w *bufio.Writer, dir string, caseID int, header string, lines []
 		if !r.execGuarded(l) {
 			break
 		}
-		if imgMode == "commit" && (l == "commit" || strings.HasPrefix(l, "open ")) {
+		if imgMode == "commit" && (l == "commit" || strings.HasPrefix(l, "commitfail ") || strings.HasPrefix(l, "open ")) {
 			r.exec("img")
 		}
 	}
